@@ -25,7 +25,7 @@ use verif_harness::{hex, Rng};
 // ------------------------------------------------------------------------------------------------
 // canonical AST dump (the Lean driver prints the same text from its own AST)
 
-fn hexs(s: &str) -> String {
+pub fn hexs(s: &str) -> String {
     hex(s.as_bytes())
 }
 
@@ -151,7 +151,7 @@ fn definition(d: &Definition) -> String {
     }
 }
 
-fn dump(s: &Schema, sort_imports: bool) -> String {
+pub fn dump(s: &Schema, sort_imports: bool) -> String {
     let mut imports: Vec<&ImportStmt> = s.imports().iter().collect();
     if sort_imports {
         imports.sort_by_key(|i| i.schema_name().value());
@@ -166,7 +166,7 @@ fn dump(s: &Schema, sort_imports: bool) -> String {
 
 /// Every error and warning as the title line of its rendered report (kind, names and ids; no positions, no
 /// source excerpts).
-fn diagnostics(p: &Parser) -> Vec<String> {
+pub fn diagnostics(p: &Parser) -> Vec<String> {
     let r = Renderer::new(false, false, 200);
     let title = |s: String| s.lines().next().unwrap_or("").to_string();
     let mut v: Vec<String> = p.errors().iter().map(|e| title(r.render(e, p))).collect();
@@ -179,10 +179,27 @@ fn diagnostics(p: &Parser) -> Vec<String> {
 // ------------------------------------------------------------------------------------------------
 // source generator
 
-struct G<'a> {
-    r: &'a mut Rng,
-    o: String,
-    messy: bool,
+pub struct G<'a> {
+    pub r: &'a mut Rng,
+    pub o: String,
+    pub messy: bool,
+    /// doc strings take their text from `ADVERSARIAL_DOCS` (markdown links, carriage returns, tabs, multi-byte
+    /// characters) instead of `COMMENT_TEXT`
+    pub adversarial: bool,
+}
+
+pub const ADVERSARIAL_DOCS: &[&str] = &[
+    " [Foo]", " [`Foo`]", " see [Foo] and [bar::Baz]", " [a](b)", " [a](self::Foo)", " [text](Foo::bar)", " [x][y]", " [y]: Foo",
+    " [ä](ö)", " ä [Foo] €", " [Foo]\r[Bar]", " a\r[Foo]", " \r[Foo]", " [Foo]\r", "\t[Foo]", " [Foo\tBar]", " [[Foo]]", " [Foo",
+    " Foo]", " []()", " [](", " ![img](Foo)", " <Foo>", " <https://x.y>", " [Foo](<Bar>)", " * [Foo]", " > [Foo]", " # [Foo]",
+    " | [a] | [b] |", " |---|---|", " - [ ] [Foo]", " ~~[Foo]~~", " [^1]", " [^1]: [Foo]", " `[Foo]`", " ``` [Foo]", " \\[Foo]",
+    " [Foo] \u{1F600} [Bar]", " \u{1F600}[Foo]", " [\u{1F600}]", " [self]", " [super::x]", " [crate]", " [fn@foo]", " [Foo::]", " [::Foo]",
+    " [a::b::c::d]", " [Foo](Bar \"title\")", " &amp; [Foo]", " \"smart\" -- [Foo] ...", "[Foo]", "[Foo][]", " [Foo]:", " [ Foo ]",
+];
+
+fn adversarial_text(t: &str) -> String {
+    // the table spells control characters and astral characters with escapes
+    t.replace("\\r", "\r").replace("\\t", "\t").replace("\\u{1F600}", "\u{1F600}").replace("\\\"", "\"").replace("\\\\", "\\")
 }
 
 const IDENTS: &[&str] = &["a", "b1", "foo", "foo_bar", "_x", "X", "Foo", "FooBar", "requiredx", "struct", "enum", "fallback", "version", "uuid", "u8x", "boolean", "optional", "boxed", "bytes_", "valuex", "unit1", "args", "ok", "err", "fn", "event", "import", "service", "const", "newtype", "i64", "mapped", "resultx", "string", "lifetime_", "t", "xx"];
@@ -245,9 +262,14 @@ impl G<'_> {
         s
     }
     fn line(&mut self, prefix: &str) {
-        let t = *self.r.pick(COMMENT_TEXT);
         self.o.push_str(prefix);
-        self.o.push_str(t);
+        if self.adversarial && prefix.starts_with("///") || self.adversarial && prefix.starts_with("//!") {
+            let t = adversarial_text(*self.r.pick(ADVERSARIAL_DOCS));
+            self.o.push_str(&t);
+        } else {
+            let t = *self.r.pick(COMMENT_TEXT);
+            self.o.push_str(t);
+        }
         self.nl();
     }
     fn attribute(&mut self, inline: bool) {
@@ -582,7 +604,7 @@ impl G<'_> {
             }
         }
     }
-    fn schema(&mut self) {
+    pub fn schema(&mut self) {
         self.ws0();
         if self.r.chance(1, 3) {
             let n = 1 + self.r.below(3);
@@ -611,7 +633,7 @@ impl G<'_> {
     }
 }
 
-fn damage(r: &mut Rng, s: &str) -> String {
+pub fn damage(r: &mut Rng, s: &str) -> String {
     let cs: Vec<char> = s.chars().collect();
     if cs.is_empty() { return "x".into(); }
     let i = r.below(cs.len() as u64) as usize;
@@ -625,7 +647,7 @@ fn damage(r: &mut Rng, s: &str) -> String {
     out.into_iter().collect()
 }
 
-fn parse(src: &str) -> Parser {
+pub fn parse(src: &str) -> Parser {
     Parser::parse(MemoryResolver::new("s", Ok(src.to_string())))
 }
 
@@ -662,7 +684,7 @@ fn main() {
     for _ in 0..cases {
         let mut r = rng.fork();
         let messy = !r.chance(1, 5);
-        let mut g = G { r: &mut r, o: String::new(), messy };
+        let mut g = G { r: &mut r, o: String::new(), messy, adversarial: false };
         g.schema();
         let src = g.o;
         let src = if std::env::var("FMTC_NODAMAGE").is_err() && r.chance(1, 4) { damage(&mut r, &src) } else { src };
